@@ -69,3 +69,41 @@ package ice
 //@   site call isFamilyAllowed#1 assert unscoped-rule-uses-external-family: !hasLocalAddr && ruleMapping.cidr == nil ==> targetLocalIPv4 == isExtIPv4
 //@   site call addImplicitMapping#1 assert files-under-target-family: arg1 == extIP && arg2 == targetLocalIPv4 && arg3 == hasLocalAddr && arg4 == localAddr
 //@   ensures error-adds-nothing-reported: err != nil ==> !result0
+
+// Application to host candidates on a UDP mux: replace substitutes (an empty list
+// drops the candidate), append adds (an empty list changes nothing), no matching
+// rule keeps the local address, a failed lookup drops the candidate.
+//@ func (*Agent).applyHostRewriteForUDPMux
+//@   props C19
+//@   opt nosafety
+//@   ghostvar gErr bool = false
+//@   ghostvar gMatched bool = false
+//@   ghostvar gReplace bool = false
+//@   ghostvar gN int = 0
+//@   site call findExternalIPs#1 assert looks-up-host-rules-without-an-interface: arg1 == CandidateTypeHost && arg3 == ""
+//@   site call findExternalIPs#1 ghost gErr := result3 != nil
+//@   site call findExternalIPs#1 ghost gMatched := result1
+//@   site call findExternalIPs#1 ghost gReplace := result2 == AddressRewriteReplace
+//@   site call findExternalIPs#1 ghost gN := len(result0)
+//@   ensures failed-lookup-drops-the-candidate: gErr ==> !result1
+//@   ensures no-matching-rule-keeps-the-local-address: !gErr && !gMatched ==> result1 && result0 == candidateIPs0
+//@   ensures empty-replace-drops-the-candidate: !gErr && gMatched && gN == 0 && gReplace ==> !result1
+//@   ensures empty-append-changes-nothing: !gErr && gMatched && gN == 0 && !gReplace ==> result1 && result0 == candidateIPs0
+//@   ensures replace-substitutes: !gErr && gMatched && gN > 0 && gReplace ==> result1 && len(result0) == gN
+//@   ensures append-adds: !gErr && gMatched && gN > 0 && !gReplace ==> result1 && len(result0) == len(candidateIPs0) + gN
+
+// Application to host candidates with own sockets (externals that do not convert are skipped).
+//@ func (*Agent).applyHostAddressRewrite
+//@   props C19
+//@   opt nosafety
+//@   ghostvar gErr bool = false
+//@   ghostvar gMatched bool = false
+//@   ghostvar gReplace bool = false
+//@   site call findExternalIPs#1 assert looks-up-host-rules-for-this-interface: arg1 == CandidateTypeHost && arg3 == iface
+//@   site call findExternalIPs#1 ghost gErr := result3 != nil
+//@   site call findExternalIPs#1 ghost gMatched := result1
+//@   site call findExternalIPs#1 ghost gReplace := result2 == AddressRewriteReplace
+//@   site call appendHostMappedAddrs#1 assert replace-starts-from-an-empty-list-append-from-the-local-address: arg0.base == mappedAddrs0.base && arg0.off == mappedAddrs0.off && len(arg0) == ite(gReplace, 0, len(mappedAddrs0)) && arg2 == addr
+//@   ensures failed-lookup-or-no-rule-keeps-the-local-address: gErr || !gMatched ==> result1 && result0 == mappedAddrs0
+//@   ensures replace-without-usable-external-drops-the-candidate: !gErr && gMatched && gReplace && len(result0) == 0 ==> !result1
+//@   ensures append-never-drops-the-candidate: !gErr && gMatched && !gReplace ==> result1
